@@ -29,6 +29,7 @@ def discharged : List (String × String) := [
   ("croak:f.flattenContext.newRefs", "logging only"),
   ("croak:reported", "logging only"),
   ("flattenAnonPointer:an.references.allRefs", "callers are collected, then used as a set"),
+  ("flattenAnonPointer:refsToReplace", "deletes the planned keys that lie under the schema which has just been moved: the test looks at the key alone, a filter (stalePlans_order_independent)"),
   ("importExternalReferences:groupedRefs", "keys collected then sort.Strings"),
   ("importExternalReferences:opts.flattenContext.newRefs", "sampled only: the body inserts entries while ranging"),
   ("importNewRef:partialAnalyzer.references.allRefs", "UpdateRef at distinct keys of the imported schema: importRebase_order_independent"),
@@ -45,6 +46,14 @@ def discharged : List (String × String) := [
 
 structure FactsOK (f : Facts) : Prop where
   ranges : ∀ r ∈ f.mapRanges, r ∈ discharged.map (·.1)
+
+/-- dropping the planned pointers that moved with their holder (`flattenAnonPointer`, the loop over `refsToReplace`):
+    whatever the order in which the map is visited, the same entries are left -/
+theorem stalePlans_order_independent (moved key : String) (plans plans' : List (String × Flatten.PtrPlan))
+    (hp : plans.Perm plans') :
+    (plans.filter fun p => p.1 = key || !Str.hasPrefix (moved ++ "/") p.1).Perm
+      (plans'.filter fun p => p.1 = key || !Str.hasPrefix (moved ++ "/") p.1) :=
+  hp.filter _
 
 /-- `DepthFirst` does not depend on the order in which the keys of the map are visited -/
 theorem depthFirst_perm (ks ks' : List String) (hp : ks.Perm ks') (hn : ks.Nodup) :
